@@ -22,18 +22,35 @@
 (*      of the code as written run with "all" / "minter", the former       *)
 (*      values document the old behaviour (MC_EventDB_former.cfg).         *)
 (* Stake-pool reward events are merged by summation per provider.          *)
+(*                                                                         *)
+(* Blocks follow one another (NextBlock, at most MaxBlocks): the burn nonce *)
+(* of an address and the mint nonce run on, and the burn_tickets table     *)
+(* (db, its rows identified by (address, nonce)) keeps the rows of the     *)
+(* earlier blocks.  The ticket handler refuses a ticket whose (address,    *)
+(* nonce) is already in the table, and an error of a handler rolls the     *)
+(* whole block's events back (process.go: one transaction per block), so   *)
+(* the block's tickets and totals would be lost (Store, `clash`).  Nonces  *)
+(* of one address never repeat, so no block is ever refused                *)
+(* (C20_NoBlockRefused) and the table holds the ticket of every burn of    *)
+(* every block so far (C20_TicketsOfAllBlocks).                            *)
 (***************************************************************************)
 EXTENDS EventDBDefs, TLC
 
 CONSTANTS Client, Eth, Auths, SignerSets, MaxBurns, MaxMints,
+          MaxBlocks,     \* number of consecutive blocks
           Merger, TicketStore, MintKey
 
-VARIABLES phase, B, nonce, mintSeq
-vars == <<phase, B, nonce, mintSeq>>
+VARIABLES phase, B, nonce, mintSeq,
+          db,            \* burn_tickets rows of all blocks so far, as (address, nonce) keys
+          blk,           \* number of the block under construction
+          refused        \* some block's events were rolled back
+vars == <<phase, B, nonce, mintSeq, db, blk, refused>>
 
 Empty == [burns |-> <<>>, mints |-> <<>>, rewards |-> <<>>, mTickets |-> <<>>, mBurns |-> <<>>, mMints |-> <<>>,
           mRewards |-> <<>>, rows |-> <<>>, dBurn |-> <<>>, dMint |-> <<>>, auths |-> Auths]
-Init == phase = "emit" /\ B = Empty /\ nonce = [e \in Eth |-> 0] /\ mintSeq = 0
+Init == /\ phase = "emit" /\ B = Empty /\ nonce = [e \in Eth |-> 0] /\ mintSeq = 0
+        /\ db = {} /\ blk = 1 /\ refused = FALSE
+KeyOf(t) == [eth |-> t.eth, nonce |-> t.nonce]
 
 Amount(k) == 2 ^ (k - 1)     \* distinct powers of two: a sum tells which events were counted
 
@@ -41,14 +58,14 @@ EmitBurn(c, e) ==
   /\ phase = "emit" /\ Len(B.burns) < MaxBurns
   /\ nonce' = [nonce EXCEPT ![e] = @ + 1]
   /\ B' = [B EXCEPT !.burns = Append(@, [c |-> c, eth |-> e, amount |-> Amount(Len(B.burns) + Len(B.mints) + 1), nonce |-> nonce'[e]])]
-  /\ UNCHANGED <<phase, mintSeq>>
+  /\ UNCHANGED <<phase, mintSeq, db, blk, refused>>
 EmitMint(c, S) ==
   /\ phase = "emit" /\ Len(B.mints) < MaxMints
   /\ mintSeq' = mintSeq + 1
   /\ \E payee \in Range(S) :
        B' = [B EXCEPT !.mints = Append(@, [c |-> c, nonce |-> mintSeq', amount |-> Amount(Len(B.burns) + Len(B.mints) + 1), signers |-> S]),
                       !.rewards = Append(@, [a |-> payee, d |-> 1])]
-  /\ UNCHANGED <<phase, nonce>>
+  /\ UNCHANGED <<phase, nonce, db, blk, refused>>
 
 SeqOf(S) == CHOOSE s \in [1..Cardinality(S) -> S] : Range(s) = S
 Kept(s, K(_)) == IF Merger = "overwrite" THEN LastPerIndex(s, K) ELSE 1..Len(s)
@@ -65,22 +82,36 @@ Merge ==
                     !.mRewards = IF Providers = {} THEN <<>> ELSE
                                  LET ps == SeqOf(Providers) IN
                                  [i \in 1..Len(ps) |-> [a |-> ps[i], d |-> SumOver(B.rewards, 1, LAMBDA r : IF r.a = ps[i] THEN r.d ELSE 0)]]]
-  /\ UNCHANGED <<nonce, mintSeq>>
+  /\ UNCHANGED <<nonce, mintSeq, db, blk, refused>>
 
 Store ==
   /\ phase = "merged" /\ phase' = "stored"
-  /\ \E rows \in (IF TicketStore = "all" \/ Len(B.mTickets) = 0 THEN {B.mTickets} ELSE {<<B.mTickets[i]>> : i \in 1..Len(B.mTickets)}) :
-       B' = [B EXCEPT !.rows = rows,
+  /\ LET clash == \E i \in 1..Len(B.mTickets) : KeyOf(B.mTickets[i]) \in db IN
+     IF clash
+     THEN \* addBurnTicket: "burn ticket with the given ethereum address and nonce already exists" -> rollback
+          /\ B' = [B EXCEPT !.rows = <<>>, !.dBurn = <<>>, !.dMint = <<>>]
+          /\ refused' = TRUE /\ UNCHANGED db
+     ELSE
+       /\ \E rows \in (IF TicketStore = "all" \/ Len(B.mTickets) = 0 THEN {B.mTickets} ELSE {<<B.mTickets[i]>> : i \in 1..Len(B.mTickets)}) :
+           /\ B' = [B EXCEPT !.rows = rows,
                       !.dBurn = B.mBurns,
                       !.dMint = IF MintKey = "minter" /\ Len(B.mMints) > 0
                                 THEN LET as == SeqOf(Auths) IN
                                      [i \in 1..Len(as) |-> [a |-> as[i], d |-> SumOver(B.mMints, 1, LAMBDA m : IF as[i] \in Range(m.signers) THEN m.amount ELSE 0)]]
                                 ELSE <<>>]
-  /\ UNCHANGED <<nonce, mintSeq>>
+           /\ db' = db \cup {KeyOf(rows[i]) : i \in 1..Len(rows)}
+       /\ UNCHANGED refused
+  /\ UNCHANGED <<nonce, mintSeq, blk>>
+
+\* the next block: B.rows / dBurn / dMint are what ONE block adds, the table and the nonces run on
+NextBlock ==
+  /\ phase = "stored" /\ blk < MaxBlocks /\ Len(B.burns) + Len(B.mints) > 0
+  /\ phase' = "emit" /\ B' = Empty /\ blk' = blk + 1
+  /\ UNCHANGED <<nonce, mintSeq, db, refused>>
 
 Next == \/ \E c \in Client, e \in Eth : EmitBurn(c, e)
         \/ \E c \in Client, S \in SignerSets : EmitMint(c, S)
-        \/ Merge \/ Store
+        \/ Merge \/ Store \/ NextBlock
 Spec == Init /\ [][Next]_vars
 
 -----------------------------------------------------------------------------
@@ -88,10 +119,18 @@ C20_MergeKeepsAll == phase \in {"merged", "stored"} => MergeKeepsAll(B)
 C20_TicketPerBurn == phase = "stored" => TicketPerBurn(B)
 C20_BurnTotals == phase = "stored" => BurnTotals(B)
 C20_MintTotals == phase = "stored" => MintTotals(B)
+\* over the blocks: no block is refused, the table holds the ticket of every burn of every block so far
+C20_NoBlockRefused == ~refused
+AllBurnKeys == UNION {{[eth |-> e, nonce |-> n] : n \in 1..nonce[e]} : e \in Eth}
+C20_TicketsOfAllBlocks == phase = "stored" => db = AllBurnKeys
 (* the code as written *)
 C20w_MergeKeepsLast == phase \in {"merged", "stored"} => MergeKeepsLast(B)
 C20w_StoresAllMerged == phase = "stored" => StoresAllMerged(B)
 C20w_MintTotalsOfMerged == phase = "stored" => MintTotalsOfMerged(B)
+\* over the blocks: still no block is refused; the table holds tickets of burns only, and of every address burnt to its latest
+C20w_NoBlockRefused == ~refused
+C20w_LatestTicketOfAllBlocks == phase = "stored" =>
+    (db \subseteq AllBurnKeys /\ \A e \in Eth : nonce[e] > 0 => [eth |-> e, nonce |-> nonce[e]] \in db)
 (* the former handlers *)
 C20w_StoresOneTicket == phase = "stored" => StoresOneTicket(B)
 C20w_BurnTotalsOfMerged == phase = "stored" => BurnTotalsOfMerged(B)
